@@ -220,6 +220,13 @@ Definition c04_writes_safe (c : case) : bool :=
       end in
   if applies then writes_never_route_into_void (x_net c) (x_obs_writes c) else true.
 
+(* C07 with traffic routing: every "not done yet" of the traffic manager comes with a requeue, so the quiet states are the
+   ones of the reconcile without traffic (Corr/RolloutSM.v: waits_on); quiet additionally means no network write *)
+Definition c07_quiet_means_waiting_tr (c : case) : bool :=
+  let i := x_inner c in
+  if quiet_obs i && negb (rs_deleting (rc_spec i)) && match x_obs_writes c with [] => true | _ => false end
+  then waits_on (rc_spec i) (rc_status i) (rc_wl i) (rc_br i) else true.
+
 Definition judge (c : case) : list verdict :=
   [ if corresponds_tr c then VOk else VMismatch;
     clause "C03_traffic_state_entered_only_after_pods_ready" (c03_entered_after_ready c);
@@ -236,7 +243,8 @@ Definition judge (c : case) : list verdict :=
        the cursor is kept but read against the other order, so tasks are skipped *)
     clause_known "C04_finalising_invariant_kept" "C04:F31" (reason_changed c) (c04_invariant_kept c);
     clause_known "C06_finalising_invariant_kept_from_any_memory_state" "C06:F31" (reason_changed c) (c04_invariant_kept c);
-    clause "C05_done_means_network_clean" (c05_done_means_clean c) ].
+    clause "C05_done_means_network_clean" (c05_done_means_clean c);
+    clause "C07_quiet_reconcile_with_traffic_is_waiting_for_someone" (c07_quiet_means_waiting_tr c) ].
 
 Definition tag (c : case) : string :=
   match x_obs_writes c with
